@@ -490,8 +490,10 @@ def check(prop, tier, only=None, keep=False, seed=0):
         for fn in files:
             h = parse_harness(os.path.join(hdir, fn), scratch)
             if h['property'] != prop: raise EngineError('%s: PROPERTY annotation mismatch' % fn)
-            obls = [o for o in h['obls'] if (o['tier'] == 'quick' or tier == 'thorough')]
-            if tier == 'thorough':
+            # tiers: quick < thorough; 'open' = obligations that were built but have not produced a verdict within any cap tried
+            # (kept runnable with --tier open / --only, never part of a registered command)
+            obls = [o for o in h['obls'] if o['tier'] == 'quick' or (tier in ('thorough', 'open') and o['tier'] == 'thorough') or (o['tier'] == 'open' and (tier == 'open' or (only and o['name'] in only)))]
+            if tier in ('thorough', 'open'):
                 # a thorough obligation may supersede a quick one of the same family
                 sup = {o.get('supersedes') for o in obls if o.get('supersedes')}
                 obls = [o for o in obls if o['name'] not in sup]
@@ -638,7 +640,7 @@ def check(prop, tier, only=None, keep=False, seed=0):
     wall = time.time() - t_start
     disch = sum(1 for r in results if r['status'] == 'discharged')
     ev = {
-        'property_id': prop, 'tier': tier, 'seed': seed, 'level': 'model_checking',
+        'property_id': prop, 'tier': tier if tier in ('quick', 'thorough') else 'thorough', 'seed': seed, 'level': 'model_checking',
         'coverage': {
             'obligations': len(results), 'discharged': disch,
             # model-checking keys, all measured on this run from CBMC's statistics of the winning back end of each obligation
